@@ -23,7 +23,9 @@ def run(tier, seed):
              ([(4, 5, 1)], {'require': 'history', 'schemes': ('asc',), 'decls': ('moved',)}),
              ([(6, 7, 1)], {'require': 'deep-history', 'schemes': ('desc',), 'decls': ('moved',)}),
              # a listener reads configuration / time / final on every meta-event (in the middle of the steps)
-             ([(3, 5, 1)], {'schemes': ('asc',), 'decls': ('observed',)})]
+             ([(3, 5, 1)], {'schemes': ('asc',), 'decls': ('observed',)}),
+             # a second interpreter of the same Statechart object is created and driven while the first one is alive
+             ([(3, 5, 1)], {'schemes': ('asc',), 'decls': ('bystander',)})]
     return schemes.run('C06', tier, seed, PLAN[tier], ['history'], {'history'}, RULE, ASSUME,
                        require='history', extra_plans=extra)
 
